@@ -18,7 +18,6 @@
 package types
 
 import (
-	"encoding/base64"
 	"encoding/json"
 	"fmt"
 	"reflect"
@@ -197,6 +196,14 @@ func (c *ColumnImage) MarshalJSON() ([]byte, error) {
 	if t, ok := c.Value.(time.Time); ok {
 		value = t.Format(time.RFC3339Nano)
 	}
+	if b, ok := c.Value.([]byte); ok {
+		switch c.ColumnType {
+		case JDBCTypeChar, JDBCTypeVarchar, JDBCTypeLongVarchar:
+			// text stays text: encoding/json would write a byte slice as base64, which the decoder
+			// cannot tell apart from text that merely looks like base64
+			value = string(b)
+		}
+	}
 	return json.Marshal(&columnImageAlias{
 		KeyType:    c.KeyType,
 		ColumnName: c.ColumnName,
@@ -275,11 +282,9 @@ func (c *ColumnImage) UnmarshalJSON(data []byte) error {
 			if !ok {
 				return fmt.Errorf("column %s: text is expected for type %d, got %T", columnName, columnType, value)
 			}
-			var val []byte
-			if val, err = base64.StdEncoding.DecodeString(str); err != nil {
-				val = []byte(str)
-			}
-			actualValue = string(val)
+			// text is stored as it is (see MarshalJSON): guessing "this looks like base64" would turn
+			// values such as "John" or "1234" into garbage
+			actualValue = str
 		case JDBCTypeBinary, JDBCTypeVarBinary, JDBCTypeLongVarBinary, JDBCTypeBit:
 			actualValue = value
 		}
